@@ -354,12 +354,16 @@ struct Renderer<'a> {
     // how the right operand of the chain node rendered last was written:
     // (in parentheses, chain class of what is inside)
     last_right: (bool, u8),
+    // whether the chain node rendered last carries gram's "group" flag after reassociation
+    last_flag: bool,
+    // whether the chain node rendered last added to `defect_sites`
+    last_counted: bool,
 }
 
 pub fn render(e: &E, style: &Style, rng: &mut Rng) -> String { render_ex(e, style, rng).text }
 
 pub fn render_ex(e: &E, style: &Style, rng: &mut Rng) -> Rendered {
-    let mut r = Renderer { style, rng, out: String::new(), indent: 0, defect_sites: 0, comment_no: 0, last_right: (false, 0) };
+    let mut r = Renderer { style, rng, out: String::new(), indent: 0, defect_sites: 0, comment_no: 0, last_right: (false, 0), last_flag: false, last_counted: false };
     if style.comments && r.rng.chance(1, 2) {
         r.out.push_str("# generated program\n");
     }
@@ -404,18 +408,31 @@ impl Renderer<'_> {
     }
 
     // A node of a left-associative chain: the left operand may continue the chain (level `lmax`),
-    // the right operand is at most `rmax`. Counts the known-defect shape.
+    // the right operand is at most `rmax`. Counts the known-defect shape: gram's reassociation
+    // goes wrong when the second-to-last operand is a parenthesised chain of the same class and
+    // the last operand carries gram's internal "group" flag. That flag is set by real
+    // parentheses, but also (by the earlier reassociation passes) on every application or
+    // product chain except a two-element one whose right operand is flagged: in
+    // `a - (b + c) + f x` the last operand counts as parenthesised.
     fn chain(&mut self, e: &E, l: &E, r: &E, lmax: u8, rmax: u8, op: &str, before_mul: bool) {
         let class = chain_class(e);
         let l_wrapped = self.go(l, lmax, class == 2);
+        let l_continues = !l_wrapped && chain_class(l) == class;
         // when `l` continues this chain, its right operand is our second-to-last operand
-        let prev = if !l_wrapped && chain_class(l) == class { self.last_right } else { (false, 0) };
+        let prev = if l_continues { self.last_right } else { (false, 0) };
+        // only the last two operands of the whole chain matter: what the continued part counted
+        // for its own end does not apply
+        if l_continues && self.last_counted { self.defect_sites -= 1; }
         self.out.push_str(op);
         // `a * -b * c` would parse as `a * -(b * c)`
         let rmax = if class == 2 && matches!(r, E::Neg(_)) { if before_mul { ATOM } else { LARGE } } else { rmax };
         let r_wrapped = self.go(r, rmax, false);
-        if r_wrapped && prev.0 && prev.1 == class { self.defect_sites += 1; }
+        let r_flag = r_wrapped || (matches!(chain_class(r), 1 | 2) && self.last_flag);
+        let counted = r_flag && prev.0 && prev.1 == class;
+        if counted { self.defect_sites += 1; }
+        self.last_counted = counted;
         self.last_right = (r_wrapped, chain_class(strip(r)));
+        self.last_flag = l_continues || !r_flag;
     }
 
     fn go_bare(&mut self, e: &E, before_mul: bool) {
@@ -693,9 +710,18 @@ impl Eval {
 }
 
 // Independent big-step call-by-value evaluation of a closed program.
-pub fn reference_eval(e: &E, fuel: usize) -> Expected {
+pub fn reference_eval(e: &E, fuel: usize) -> Expected { reference_eval_cost(e, fuel).0 }
+
+// The same, also returning the number of nodes evaluated (a rough measure of the work that any
+// evaluator has to do).
+pub fn reference_eval_cost(e: &E, fuel: usize) -> (Expected, usize) {
     let mut ev = Eval { fuel, depth: 0 };
-    match ev.eval(e, &Env::Nil) {
+    let r = ev.eval(e, &Env::Nil);
+    (expected_of(r), fuel - ev.fuel)
+}
+
+fn expected_of(r: Result<V, Stop>) -> Expected {
+    match r {
         Ok(V::Int(n)) => Expected::Int(n),
         Ok(V::Bool(b)) => Expected::Bool(b),
         Ok(V::Ty) => Expected::Type,
@@ -751,6 +777,13 @@ impl T {
         }
     }
     fn is_fun(&self) -> bool { matches!(self, T::Fun(..) | T::All(..)) }
+    fn has_tvar(&self) -> bool {
+        match self {
+            T::TVar(_) | T::All(..) => true,
+            T::Fun(a, b) => a.has_tvar() || b.has_tvar(),
+            _ => false,
+        }
+    }
     fn is_ground_base(&self) -> bool { matches!(self, T::Int | T::Bool) }
     // The final result type after all parameters.
     fn result(&self) -> &T {
@@ -958,7 +991,7 @@ impl Gen<'_> {
                 E::Pi { var: Some(a2), implicit: false, dom: Box::new(E::TyType), cod: Box::new(cod) }
             }
         };
-        if !self.obfuscate || !self.rng.chance(1, 7) { return base; }
+        if !self.obfuscate || !self.rng.chance(1, 10) { return base; }
         match self.rng.below(3) {
             0 => {
                 self.feat("type-level-if");
@@ -1024,15 +1057,44 @@ impl Gen<'_> {
             T::Int => self.int_literal(),
             T::Bool => if self.rng.chance(1, 2) { E::True } else { E::False },
             T::Type => { let t = self.gen_type(1); self.ty_e(&t) }
-            T::TVar(_) => {
-                if depth > 0 {
-                    if let Some(e) = self.gen_call(goal, 0, Some(depth - 1)) { return e; }
+            T::TVar(_) => match self.inhabit(goal, depth.max(3)) {
+                Some(e) => e,
+                None => {
+                    self.feat("BUG-no-inhabitant");
+                    lit(0)
                 }
-                self.feat("BUG-no-inhabitant");
-                lit(0)
-            }
+            },
             T::Fun(..) | T::All(..) => self.gen_lambda(goal, 0),
         }
+    }
+
+    // A small expression of an abstract type (a type variable): a variable of that type, or a
+    // monomorphic function in scope applied to such expressions. Proper search, so that it finds
+    // an inhabitant whenever one exists within the depth.
+    fn inhabit(&mut self, goal: &T, depth: usize) -> Option<E> {
+        let vs = self.vars_of(goal);
+        if !vs.is_empty() { return Some(var(self.rng.pick::<String>(&vs[..]))); }
+        if depth == 0 { return None; }
+        let mut cands: Vec<(usize, usize)> = vec![];
+        for (i, b) in self.scope.iter().enumerate() {
+            if !b.usable || b.forward || b.alias.is_some() || b.guarded.is_some() || !b.ty.is_fun() || b.ty.has_all() { continue; }
+            let (ps, rs) = spine(&b.ty);
+            for k in 1..=ps.len() { if &rs[k] == goal { cands.push((i, k)); } }
+        }
+        let start = self.rng.below(cands.len().max(1));
+        for c in 0..cands.len() {
+            let (i, k) = cands[(start + c) % cands.len()];
+            let (ps, _) = spine(&self.scope[i].ty);
+            let mut e = var(&self.scope[i].name);
+            let mut ok = true;
+            for p in &ps[..k] {
+                let Param::Val(t) = p else { ok = false; break };
+                let arg = if let T::TVar(_) = t { self.inhabit(t, depth - 1) } else { Some(self.leaf(t, depth - 1)) };
+                match arg { Some(a) => e = app(e, a), None => { ok = false; break } }
+            }
+            if ok { return Some(e); }
+        }
+        None
     }
 
     // ---- productions ----
@@ -1043,7 +1105,7 @@ impl Gen<'_> {
             T::Fun(a, b) => {
                 let x = self.fresh_name();
                 let ann = self.param_ann(a);
-                if a.is_fun() || b.is_fun() && !matches!(**b, T::All(..)) { if a.is_fun() { self.feat("higher-order"); } }
+                if a.is_fun() { self.feat("higher-order"); }
                 self.scope.push(Bind::plain(&x, (**a).clone()));
                 let body = if b.is_fun() && self.rng.chance(4, 5) { self.gen_lambda(b, budget.saturating_sub(1)) } else { self.expr(b, budget.saturating_sub(1)) };
                 self.scope.pop();
@@ -1097,7 +1159,7 @@ impl Gen<'_> {
                     let b = self.expr(goal, budget / 3);
                     Some(ite(c, a, b))
                 }
-                2 => self.gen_call(goal, budget, None),
+                2 => self.gen_call(goal, budget),
                 3 => {
                     let vs = self.vars_of(goal);
                     if vs.is_empty() { None } else { Some(var(self.rng.pick::<String>(&vs[..]))) }
@@ -1159,8 +1221,10 @@ impl Gen<'_> {
     }
 
     // An application of a function in scope whose result (after k arguments) is the goal.
-    // `leafy` = Some(depth) builds the arguments from leaves only.
-    fn gen_call(&mut self, goal: &T, budget: usize, leafy: Option<usize>) -> Option<E> {
+    fn gen_call(&mut self, goal: &T, budget: usize) -> Option<E> {
+        // A function goal over abstract types is only met by a lambda: a partial application
+        // would need arguments of abstract types before the parameters that provide them exist.
+        if goal.is_fun() && goal.has_tvar() { return None; }
         let mut cands: Vec<(usize, usize, HashMap<String, T>)> = vec![];
         for (i, b) in self.scope.iter().enumerate() {
             if !b.usable || b.alias.is_some() || !b.ty.is_fun() { continue; }
@@ -1177,7 +1241,7 @@ impl Gen<'_> {
         }
         if cands.is_empty() { return None; }
         let (i, k, m) = cands[self.rng.below(cands.len())].clone();
-        Some(self.build_call(i, k, m, budget, leafy))
+        Some(self.build_call(i, k, m, budget))
     }
 
     // A call of one specific function, if its result can be the goal (prefers full application).
@@ -1187,12 +1251,12 @@ impl Gen<'_> {
         for k in (1..=ps.len()).rev() {
             let vars: Vec<String> = ps[..k].iter().filter_map(|p| if let Param::Ty(a) = p { Some(a.clone()) } else { None }).collect();
             let mut m = HashMap::new();
-            if match_ty(&rs[k], goal, &vars, &mut m) { return Some(self.build_call(i, k, m, budget, None)); }
+            if match_ty(&rs[k], goal, &vars, &mut m) { return Some(self.build_call(i, k, m, budget)); }
         }
         None
     }
 
-    fn build_call(&mut self, i: usize, k: usize, mut m: HashMap<String, T>, budget: usize, leafy: Option<usize>) -> E {
+    fn build_call(&mut self, i: usize, k: usize, mut m: HashMap<String, T>, budget: usize) -> E {
         let b = self.scope[i].clone();
         let (ps, _) = spine(&b.ty);
         if b.ty.has_all() { self.feat("polymorphism"); }
@@ -1227,8 +1291,6 @@ impl Gen<'_> {
                     first_val = false;
                     if guarded_arg {
                         self.small_nat(b.guarded.unwrap())
-                    } else if let Some(d) = leafy {
-                        self.leaf(&t2, d)
                     } else {
                         self.expr(&t2, per)
                     }
@@ -1289,7 +1351,19 @@ impl Gen<'_> {
             let item = |kind: Kind, name: String, ty: T| Item { kind, name, ty, cluster: None, fwd_user: None, literal: false };
             match r {
                 0..=3 => {
-                    let ty = if self.rng.chance(1, 7) { T::fun(self.ground_base(), self.ground_base()) } else { self.ground_base() };
+                    // sometimes a function-typed value: what is left of an earlier function of
+                    // the group after its first arguments (so a partial application fits)
+                    let earlier: Vec<T> = items.iter().filter(|it| matches!(it.kind, Kind::Func | Kind::Rec { .. }) && it.cluster.is_none()).filter_map(|it| {
+                        let (ps, rs) = spine(&it.ty);
+                        if ps.len() >= 2 { Some(rs[1 + self.rng.below(ps.len() - 1)].clone()) } else { None }
+                    }).collect();
+                    let ty = if !earlier.is_empty() && self.rng.chance(1, 3) {
+                        self.rng.pick(&earlier).clone()
+                    } else if self.rng.chance(1, 7) {
+                        T::fun(self.ground_base(), self.ground_base())
+                    } else {
+                        self.ground_base()
+                    };
                     let n = name(self, &mut names);
                     items.push(item(Kind::Value, n, ty));
                 }
@@ -1327,6 +1401,22 @@ impl Gen<'_> {
                 }
             }
         }
+        // with forward references allowed, make sure there is something to refer forward to: a
+        // non-function definition followed by a function definition
+        if self.cfg.allow_forward_refs && self.rng.chance(2, 3) {
+            let first_value = items.iter().position(|it| matches!(it.kind, Kind::Value) && it.ty.is_ground_base());
+            let has_later_fn = first_value.map_or(false, |v| items[v + 1..].iter().any(|it| matches!(it.kind, Kind::Func | Kind::Rec { .. }) && it.cluster.is_none()));
+            if !has_later_fn {
+                if first_value.is_none() {
+                    let n = name(self, &mut names);
+                    let ty = self.ground_base();
+                    items.insert(0, Item { kind: Kind::Value, name: n, ty, cluster: None, fwd_user: None, literal: false });
+                }
+                let n = name(self, &mut names);
+                let (kind, ty) = if self.rng.chance(1, 2) { (Kind::Func, self.func_type()) } else { (Kind::Rec { calls: 1 }, self.rec_type()) };
+                items.push(Item { kind, name: n, ty, cluster: None, fwd_user: None, literal: false });
+            }
+        }
         // a type alias for a type that the group is going to mention
         if self.rng.chance(1, 4) {
             let mut pool: Vec<T> = vec![];
@@ -1360,7 +1450,7 @@ impl Gen<'_> {
         let mut fwd: HashMap<usize, usize> = HashMap::new(); // user -> target
         if self.cfg.allow_forward_refs {
             for i in 0..items.len() {
-                if !matches!(items[i].kind, Kind::Value) || !items[i].ty.is_ground_base() || !self.rng.chance(1, 2) { continue; }
+                if !matches!(items[i].kind, Kind::Value) || !items[i].ty.is_ground_base() || !self.rng.chance(2, 3) { continue; }
                 let targets: Vec<usize> = (i + 1..items.len())
                     .filter(|&j| match items[j].kind {
                         Kind::Func | Kind::Rec { .. } => items[j].ty.result().is_ground_base() && items[j].cluster.is_none(),
@@ -1386,6 +1476,15 @@ impl Gen<'_> {
                 None => vec![],
             };
             for &j in &hidden { self.scope[base + j].usable = false; }
+            // Decide about the annotation first. gram cannot check an unannotated definition
+            // whose type still contains an unresolved hole (`g = p => 4` is rejected), so holes
+            // inside such a right-hand side are switched off, except for a few flagged cases.
+            let needs_ann = matches!(it.kind, Kind::Rec { .. }) || it.fwd_user.is_some() || has_alias;
+            let omit_ann = self.cfg.allow_holes && !needs_ann && self.rng.chance(2, 5);
+            let saved_holes = self.cfg.allow_holes;
+            if omit_ann {
+                if self.rng.chance(1, 12) { self.feat("hole-in-unannotated-def"); } else { self.cfg.allow_holes = false; }
+            }
             let rhs = match &it.kind {
                 Kind::Alias(t) => {
                     let save = self.obfuscate;
@@ -1397,15 +1496,18 @@ impl Gen<'_> {
                 Kind::Value if it.literal => if it.ty == T::Int { self.int_literal() } else if self.rng.chance(1, 2) { E::True } else { E::False },
                 Kind::Value => match fwd.get(&i) {
                     Some(&j) => self.gen_forward_use(&it.ty, base + j, per),
+                    None if it.ty.is_fun() && self.rng.chance(3, 4) => match self.gen_call(&it.ty, per) {
+                        Some(e) => e,
+                        None => self.expr(&it.ty, per),
+                    },
                     None => self.expr(&it.ty, per),
                 },
                 Kind::Func | Kind::Poly => self.gen_lambda(&it.ty, per),
                 Kind::Rec { calls } => self.gen_rec(&it, *calls, per),
             };
             for &j in &hidden { self.scope[base + j].usable = true; }
-            // annotation
-            let needs_ann = matches!(it.kind, Kind::Rec { .. }) || it.fwd_user.is_some() || has_alias;
-            let ann = if self.cfg.allow_holes && !needs_ann && self.rng.chance(2, 5) {
+            self.cfg.allow_holes = saved_holes;
+            let ann = if omit_ann {
                 self.feat("hole");
                 if self.rng.chance(1, 4) { Some(E::Hole) } else { None }
             } else {
@@ -1551,6 +1653,9 @@ impl Gen<'_> {
     }
 }
 
+// Programs whose reference evaluation visits more nodes than this are generated again.
+pub const MAX_REFERENCE_COST: usize = 6_000;
+
 pub fn default_cfg() -> GenCfg {
     GenCfg { size: 40, allow_holes: false, allow_forward_refs: false, allow_nested_groups: true, allow_div: true, big_literals: true }
 }
@@ -1581,13 +1686,14 @@ pub fn gen_program(rng: &mut Rng, cfg: &GenCfg) -> Prog {
         };
         let size = cfg.size.max(2);
         let e = if g.rng.chance(5, 6) && size >= 6 { g.gen_group(&goal, size) } else { g.expr(&goal, size) };
-        let expected = reference_eval(&e, 400_000);
+        let (expected, cost) = reference_eval_cost(&e, 400_000);
         let ty_src = render_plain(&ty_plain(&goal));
         let mut features: Vec<&'static str> = g.feats.iter().copied().collect();
         if has_hole(&e) && !features.contains(&"hole") { features.push("hole"); }
         let p = Prog { fully_annotated: !has_hole(&e), e, ty_src, expected, features };
         // the generator is meant to produce terminating, non-stuck programs: retry otherwise
-        if !matches!(p.expected, Expected::Diverges | Expected::Unknown) { return p; }
+        // and to stay cheap: evaluation is meant to take a few thousand steps at most
+        if !matches!(p.expected, Expected::Diverges | Expected::Unknown) && cost <= MAX_REFERENCE_COST { return p; }
         last = Some(p);
     }
     last.unwrap()
